@@ -241,3 +241,37 @@ def w10b(facts, tier):
                      f"matches the one computed in memory")
         else:
             yield ob(["C03", "C12"], "W10b", ty, "pass", w, f"guard levels {cur[ty]} as frozen", nontrivial=bool(cur[ty]))
+
+
+# ---------------------------------------------------------------------------------------------
+# M9 (C11): who may claim a known Vec / String memory layout
+
+LAYOUT_PROBES = {
+    "savefile::calculate_string_memory_layout": {"alloc::string::String", "&str"},
+    "savefile::calculate_vec_memory_layout": {"alloc::vec::Vec<$0>"},
+    "savefile::calculate_slice_memory_layout": {"&[$0]"},
+}
+
+
+@rule("M9", ["C11"], floor=60, doc="a known Vec/String memory layout (anything but VecOrStringLayout::Unknown) is claimed only by the type whose memory the "
+      "probe inspects: no other library WithSchema impl calls a layout probe or returns String's / Vec's schema as its own - such a type would be "
+      "passed by reference across the ABI as if it were a String / Vec")
+def m9(facts, tier):
+    from ..ir import peel_block
+    for ty, (f, ts) in sorted(schema_fns(facts, "savefile").items()):
+        bad = []
+        for x in calls(f["body"]):
+            c = callee(x) or ""
+            if c in LAYOUT_PROBES and ty not in LAYOUT_PROBES[c]:
+                bad.append(f"calls {c.rsplit('::', 1)[-1]}")
+        tail = peel_block(peel(f["body"]))
+        while isinstance(tail, dict) and tail.get("k") == "Block" and tail.get("e") is not None and not tail.get("stmts"):
+            tail = peel_block(peel(tail["e"]))
+        if isinstance(tail, dict) and tail.get("k") == "Call" and callee(tail) == "savefile::WithSchema::schema":
+            st = tail.get("self_ty") or ""
+            if (st == "alloc::string::String" or st.startswith("alloc::vec::Vec<")) and ty not in ("alloc::string::String", "alloc::vec::Vec<$0>"):
+                bad.append(f"returns the schema of {st} as its own")
+        yield ob(["C11"], "M9", ty, "violation" if bad else "pass", where(f),
+                 f"{ty}: {'; '.join(bad)}: the schema claims the probed memory layout of a String / Vec for a type that is not one; two sides "
+                 f"that both make the claim pass the value by pointer and read it through the wrong type" if bad
+                 else "no Vec/String layout claim for a foreign type")
